@@ -5,5 +5,5 @@ Require Import PV.Pratt.Syntax PV.Pratt.Model PV.Pratt.Climber PV.Pratt.Shunt.
 Extraction Language OCaml.
 Extraction "../ocaml/gen/pratt_model.ml"
   builder_table builder_get new_const const_get macro_expand pratt_parse
-  climber_new climber_get climb climber_of table_of
+  climber_new climber_new_const climber_macro climber_get climb climber_of table_of
   shunt well_formed yield.
